@@ -136,6 +136,19 @@ PROPS = {
                                      're-open failures at the extreme sample rates 1 and 2^31-1 are keyed separately (rate field limits are C04 findings)'],
         floor={'quick': 2000, 'thorough': 2000},
     ),
+    'C16': dict(
+        runs=[dict(src='c16_no_leaks.c')],
+        level='exploration',
+        asan_extra='detect_leaks=1',
+        rule=('case = one accounted scenario: (A) valid write/read/rdwr histories on every format x {vio, path} x metadata level {none, all strings, '
+              'strings+bext+cart+cues+instrument+channel map+PEAK+25 chunks+dither} x {no I/O, 700 frames} x extra failing calls; (B) the same file truncated at '
+              'every header byte (then coarser) opened for read / rdwr; (C) 150 / 1500 structure-aware mutations (the C03 mutators incl. appended chunks) per format opened for read and read/write; (D) single-shot and persistent I/O faults at callbacks '
+              '1..40 x 6 kinds while reading, 3 kinds while writing; (E) SD2 data fork with 1500 truncated/mutated resource forks. Before/after each scenario: live '
+              'heap bytes, /proc/self/fd, private TMPDIR and scratch listing; a difference must repeat on an immediate re-run. distinct = hash(scenario parameters or input bytes)'),
+        assumptions=COMMON_ASSUME + ['heap accounting uses the ASan allocator statistics; the write target is a pre-reserved memory file so the harness itself allocates nothing inside a scenario',
+                                     'allocation failure inside the library is not injected'],
+        floor={'quick': 5000, 'thorough': 20000},
+    ),
 }
 
 NOT_APPLICABLE = {}
